@@ -19,6 +19,8 @@ var mptConfigs = []exec.MPTConfig{
 	{Store: "level", Version: 3, InitVer: 2, Init: [][2]string{{"00", "a"}, {"0011", "b"}, {"1000", "a"}}},
 	{Store: "levelp", Version: 1, InitVer: 1, Init: [][2]string{{"", "a"}, {"0100", "b"}, {"0101", "b"}, {"10", "a"}}},
 	{Store: "mem", Version: 7},
+	{Store: "level", Version: 1 << 40},
+	{Store: "pndb", Version: 1<<32 + 5},
 	// lower content of an older version with branches of exactly two children (leaf + leaf, leaf + extension, leaf + branch)
 	{Store: "level", Version: 5, InitVer: 2, Init: [][2]string{{"0a10", "a"}, {"0a1f", "b"}, {"0b", "c"}}},
 	{Store: "level", Version: 4, InitVer: 1, Init: [][2]string{{"10", "a"}, {"2000", "b"}, {"2011", "c"}}},
